@@ -113,14 +113,16 @@ pub fn run_pte(out: &mut Out, seed: u64, n: u64) {
             0 => t[i].set_addr(unsafe { PhysAddr::new_unsafe(v & 0x000f_ffff_ffff_f000) }, PageTableFlags::from_bits_retain(v & FLAG_BITS)),
             1 => t[PageTableIndex::new(i as u16)].set_addr(unsafe { PhysAddr::new_unsafe(v & 0x000f_ffff_ffff_f000) }, PageTableFlags::from_bits_retain(v & FLAG_BITS)),
             _ => {
-                let ent = t.iter_mut().nth(i).unwrap();
-                ent.set_addr(unsafe { PhysAddr::new_unsafe(v & 0x000f_ffff_ffff_f000) }, PageTableFlags::from_bits_retain(v & FLAG_BITS));
+                // (no unwrap on anything the code under test returns: a missing item is data)
+                if let Some(ent) = t.iter_mut().nth(i) {
+                    ent.set_addr(unsafe { PhysAddr::new_unsafe(v & 0x000f_ffff_ffff_f000) }, PageTableFlags::from_bits_retain(v & FLAG_BITS));
+                }
             }
         }
         let r_usize = raw_of(&t[i]);
         let r_idx = raw_of(&t[PageTableIndex::new(i as u16)]);
-        let r_iter = raw_of(t.iter().nth(i).unwrap());
-        let r_itermut = raw_of(t.iter_mut().nth(i).unwrap());
+        let r_iter = t.iter().nth(i).map(raw_of).unwrap_or(u64::MAX);
+        let r_itermut = t.iter_mut().nth(i).map(|e| raw_of(e)).unwrap_or(u64::MAX);
         let p = &*t as *const PageTable as *const u8;
         let bytes: Vec<i64> = (0..8).map(|j| unsafe { *p.add(8 * i + j) } as i64).collect();
         let slot_addr = &t[i] as *const PageTableEntry as u64 - base;
